@@ -141,6 +141,24 @@ def freeze(facts):
                 if all(x == "relaxed" for x in o):
                     continue
                 reqs.append({"req": o, "line_at_freeze": s["line"]})
+            # which earlier requirements are path-exclusive with this one (alternative branches: no execution performs both)?  Such
+            # alternatives may later be merged into one unconditional operation without weakening anything (see check_table)
+            shapes = [f for f in facts.shapes(pat) if variant in f.variants]
+            if len(reqs) > 1 and shapes:
+                f0 = shapes[0]
+                ops = [o for o in ordered_ops_cached(f0) if o["field"] == field and normalise_kind(o["kind"]) == kind]
+                by_line = {}
+                for o in ops:
+                    by_line.setdefault(o["line"], o["nid"])
+                for i_, r_ in enumerate(reqs):
+                    ex = []
+                    a_ = by_line.get(r_["line_at_freeze"])
+                    for j_ in range(i_):
+                        b_ = by_line.get(reqs[j_]["line_at_freeze"])
+                        if a_ is not None and b_ is not None and a_ != b_ and not f0.event_reaches(a_, b_) and not f0.event_reaches(b_, a_):
+                            ex.append(j_)
+                    if ex:
+                        r_["excl"] = ex
             if reqs:
                 table.append({"variant": variant, "pat": pat, "field": field, "kind": kind, "file": sites[0]["file"], "sites": reqs})
     return table
@@ -185,6 +203,17 @@ def _callee_closure(facts, fn, depth=3):
     return seen
 
 
+def _unconditional(fn, site, field, kind):
+    """the live operation at this site is executed on every path from the function entry to its normal exit"""
+    for o in ordered_ops_cached(fn):
+        if o["line"] == site["line"] and o["field"] == field and normalise_kind(o["kind"]) == kind:
+            pos = fn.pos().get(o["nid"])
+            if pos is None:
+                return False
+            return pos[0] in fn.postdominators().get(fn.entry, ()) or pos[0] == fn.entry
+    return False
+
+
 def check_table(ctx, files, rid="K1.table"):
     """files: iterable of path suffixes selecting which table entries belong to the property"""
     facts = ctx.facts
@@ -204,6 +233,7 @@ def check_table(ctx, files, rid="K1.table"):
         sites = live[variant].get((pat, field, kind), [])
         lo = [site_orders(s) for s in sites]
         j = 0
+        matched_by = {}
         for i, r in enumerate(e["sites"]):
             req = r["req"]
             inst = "%s|%s|%s#%d@%s" % (pat, field, kind, i, variant)
@@ -217,8 +247,21 @@ def check_table(ctx, files, rid="K1.table"):
             n += 1
             if matched is not None:
                 j = matched + 1
+                matched_by[i] = matched
                 ctx.ok(rid, inst, "required %s satisfied by %s at %s:%d" % ("/".join(req), "/".join(lo[matched]), sites[matched]["file"], sites[matched]["line"]),
                        "%s:%d" % (sites[matched]["file"], sites[matched]["line"]), fn=fn0)
+                continue
+            # alternatives merged: this requirement and an earlier one sat in alternative branches when the table was frozen (no execution
+            # performed both); they may share ONE live operation if that operation is strong enough and is executed unconditionally
+            merged = None
+            for j_ in r.get("excl", []):
+                m_ = matched_by.get(j_)
+                if m_ is not None and len(lo[m_]) >= len(req) and all(sat(lo[m_][x], req[x]) for x in range(len(req))) and _unconditional(fn0, sites[m_], field, kind):
+                    merged = m_
+            if merged is not None:
+                matched_by[i] = merged
+                ctx.ok(rid, inst, "required %s satisfied by the unconditional %s at %s:%d that replaces both alternative branches" % (
+                    "/".join(req), "/".join(lo[merged]), sites[merged]["file"], sites[merged]["line"]), "%s:%d" % (sites[merged]["file"], sites[merged]["line"]), fn=fn0)
                 continue
             # not found in order: maybe the operation moved into a helper called from here
             helper = None
@@ -242,7 +285,7 @@ def check_table(ctx, files, rid="K1.table"):
 
 
 # ---------------------------------------------------------------------------------------------------------------
-COMMENT_RE = re.compile(r"//\s*\((\d+)\)\s*-\s*(.*)")
+COMMENT_RE = re.compile(r"//\s*\((\d+(?:\s*,\s*\d+)*)\)\s*-\s*(.*)")
 CLAIM_RE = re.compile(
     r"this\s+(acquire|release|releas|acq_rel|acq-rel|seq[-_]cst|release/acquire)[-\s]*"
     r"(load|store|CAS|cas|fence|exchange|xchg|fetch[-_ ]?add|fetch[-_ ]?sub|fetch[-_ ]?or|reload)", re.I)
@@ -261,7 +304,8 @@ def parse_comments(files):
         while i < len(lines):
             m = COMMENT_RE.search(lines[i])
             if m:
-                n = int(m.group(1))
+                nums = [int(x) for x in m.group(1).split(",")]   # "(2, 3) - ..." documents one operation that plays both roles
+                n = nums[0]
                 text = m.group(2)
                 j = i + 1
                 while j < len(lines) and lines[j].strip().startswith("//") and not COMMENT_RE.search(lines[j]):
@@ -280,7 +324,9 @@ def parse_comments(files):
                         x = x.strip()
                         if x.isdigit():
                             refs.append(int(x))
-                out.append({"file": rel, "line": i + 1, "endline": j, "n": n, "text": text, "order": order, "opkind": opk, "refs": refs})
+                for n in nums:
+                    out.append({"file": rel, "line": i + 1, "endline": j, "n": n, "text": text, "order": order, "opkind": opk,
+                                "refs": [x for x in refs if x not in nums]})
                 i = j
             else:
                 i += 1
